@@ -829,6 +829,12 @@ def run(chk):
 
     eval_cases(chk, cases, metas)
 
+    # the whole-program model (Whole/*.v), on which this property's whole-program theorems rest, against the real command line
+    import whole as _whole
+    import random as _random
+    _ws = {}
+    _whole.whole_stream(chk, _random.Random(chk.seed * 7919 + 12), 60 if chk.tier == "quick" else 2500, _ws)
+    chk.notes["whole_program_tie"] = _ws
     chk.coverage["rule"] = (
         "tie (i): random registrations (1-5 categories spelled in random case, 1-5 tag names incl. case variants, "
         "8% with a second spelling of a category, 6% with a duplicate tag) applied in random order to the real "
